@@ -158,7 +158,10 @@ Fixpoint serve (w : world) (rs : list N) (ts : N) (b : list key) : list (key * v
       end
   end.
 
-Inductive bg_event := EvOk | EvRegionErr (L : layout).
+(* EvBatchLocked k: the store answers the whole request with a response-level lock error naming the
+   lock of key k (no pairs): the lock is handled and the WHOLE batch stays pending
+   (batchGetSingleRegion / retryBatchGetSingleRegionAfterAsyncAPI: `if lockInfo.keyErr == nil`). *)
+Inductive bg_event := EvOk | EvRegionErr (L : layout) | EvBatchLocked (k : key).
 
 (* work-list form of batchGetKeysByRegions / batchGetSingleRegion: a request is served (values
    collected, only the still-locked keys stay pending) or hits a region error (stay if the batch
@@ -175,6 +178,12 @@ Fixpoint bget (fuel : nat) (ev : nat -> bg_event) (i : nat) (w : world) (rs : li
           | EvRegionErr L =>
               let gs := if one_region L b then [b] else group_keys L b in
               bget f ev (S i) w rs ts (gs ++ rest) acc
+          | EvBatchLocked k =>
+              let '(w', rs') := match store_get (k_get (w_keys w) k) ts rs with
+                                | SLocked l => handle_lock ts (w, rs) (k, l)
+                                | SVal _ => (w, rs)
+                                end in
+              bget f ev (S i) w' rs' ts pend acc
           | EvOk =>
               let '(vals, locked) := serve w rs ts b in
               let '(w', rs') := fold_left (handle_lock ts) locked (w, rs) in
